@@ -331,7 +331,7 @@ pub fn execute(prog: &Program, prefix: &[u8], cfg: &ExecCfg) -> Exec {
         s.harness_op.set(1);
         s.step.set(out.steps + 1);
     });
-    let drain = sched::as_harness_budgeted(true, 20_000, || {
+    let drain = sched::as_harness_budgeted(true, 3_000, || {
         let r = shared
             .level
             .match_order(DRAIN_QTY, oid(999), &shared.generator);
@@ -344,7 +344,7 @@ pub fn execute(prog: &Program, prefix: &[u8], cfg: &ExecCfg) -> Exec {
         OpResult::Matched(match_obs(&r), ids)
     })
     .unwrap_or(OpResult::Panicked(
-        "the draining match did not return within 20000 shared-memory operations (or panicked)".into(),
+        "the draining match did not return within 3000 shared-memory operations (or panicked)".into(),
     ));
     let post_drain = sched::as_harness(false, || observe(&shared.level));
     let log = sched::take_log();
